@@ -49,14 +49,14 @@ theorem C20_logic_fault (P : Params) (env e1 e2 : Env) (x : Bool) (l : Nat) (op 
     the recover the code installs) a panic inside it -/
 theorem C20_call_error (P : Params) (kind : CallKind) (l : Nat) (name : String) (vs : List Val) (e1 e2 : Env)
     (c : Option Nat)
-    (h : (match kind with | .func => execFunc e1 name vs | .method => execMethod e1 name vs | .three => (.err none, e1))
+    (h : (match kind with | .func => execFunc e1 name vs | .method => execMethod e1 name vs | .three => execThree e1 name vs)
           = (.err c, e2)) :
     finishCall P kind l name (.ok vs, e1) = (.err (some l), e2) := by
   cases kind <;> simp only [finishCall] <;> simp only at h <;> first | rw [h] | simp_all
 
 theorem C20_call_panic (P : Params) (hf : P.funcRecover = true) (hm : P.methodRecover = true) (ht : P.threeRecover = true)
     (kind : CallKind) (l : Nat) (name : String) (vs : List Val) (e1 e2 : Env)
-    (h : (match kind with | .func => execFunc e1 name vs | .method => execMethod e1 name vs | .three => (.err none, e1))
+    (h : (match kind with | .func => execFunc e1 name vs | .method => execMethod e1 name vs | .three => execThree e1 name vs)
           = (.panic, e2)) :
     finishCall P kind l name (.ok vs, e1) = (.err (some l), e2) := by
   cases kind <;> simp only [finishCall] <;> simp only at h <;> first | (rw [h]; simp [hf, hm, ht]) | simp_all
